@@ -265,6 +265,8 @@ func (server *State) Teardown(ctx context.Context, req *v1alpha1.TeardownRequest
 		return nil, status.Error(codes.NotFound, err.Error())
 	case state.IsOwnerConflictError(err):
 		return nil, status.Error(codes.PermissionDenied, err.Error())
+	case state.IsPhaseConflictError(err):
+		return nil, status.Error(codes.InvalidArgument, err.Error())
 	case state.IsConflictError(err):
 		return nil, status.Error(codes.FailedPrecondition, err.Error())
 	case err != nil:
@@ -294,6 +296,8 @@ func (server *State) TeardownAndDestroy(ctx context.Context, req *v1alpha1.Teard
 		return nil, status.Error(codes.NotFound, err.Error())
 	case state.IsOwnerConflictError(err):
 		return nil, status.Error(codes.PermissionDenied, err.Error())
+	case state.IsPhaseConflictError(err):
+		return nil, status.Error(codes.InvalidArgument, err.Error())
 	case state.IsConflictError(err):
 		return nil, status.Error(codes.FailedPrecondition, err.Error())
 	case err != nil:
